@@ -2,7 +2,7 @@
    Uniformity is a counting statement about the map  coins |-> result  (libgcrypt's bytes are taken to be uniform
    and independent: that is the trusted assumption).  Property theorems only: `exact <lemma>` + Print Assumptions. *)
 From Coq Require Import ZArith NArith List Bool Lia Permutation.
-From LT Require Import SamplerModel SamplerLemmas ShuffleModel ShuffleLemmas ShuffleUniform.
+From LT Require Import gen_Consts SamplerModel SamplerLemmas ShuffleModel ShuffleLemmas ShuffleUniform.
 Import ListNotations.
 Local Open Scope N_scope.
 
@@ -149,6 +149,30 @@ Theorem C07_fibre_count : forall n m t v, 0 < m -> t < m ->
 Proof. exact fibre_count_spec. Qed.
 Print Assumptions C07_fibre_count.
 
+(* ---- the residue cache tmcg_mpz_ssrandomm_cache_init / _cache ---- *)
+(* every cached value is an ordinary residue draw modulo the cache modulus from its own block of random bytes
+   (so C07_grandomm_count applies to it), all in range *)
+Theorem C07_cache_init : forall n m s c s', cache_init n m s = Ret (c, s') ->
+  (1 <= n <= Z.to_nat TMCG_MAX_SSRANDOMM_CACHE)%nat /\ c_mod c = m /\ c_avail c = n /\ length (c_vals c) = n /\ cache_wf c /\
+  exists chunks, s = concat chunks ++ s' /\ Forall (fun b => length b = N.to_nat (randomm_nbytes m)) chunks /\
+                 c_vals c = map (fun b => Z.of_N (be_value b mod Z.abs_N m)) chunks.
+Proof. exact cache_init_spec. Qed.
+Print Assumptions C07_cache_init.
+
+(* a query for modulus m: in range for m in BOTH branches; a hit (same modulus, entry left) hands out a not yet used
+   cached draw and consumes it, otherwise the answer is a fresh draw modulo m (not modulo the cache modulus) *)
+Theorem C07_cache_get : forall c m s v c' s', cache_wf c -> cache_get c m s = Ret ((v, c'), s') ->
+  in_range_m m v /\ cache_wf c' /\
+  ((m = c_mod c /\ (0 < c_avail c)%nat /\ nth_error (c_vals c) (c_avail c - 1) = Some v /\
+    c_avail c' = (c_avail c - 1)%nat /\ c_vals c' = c_vals c /\ c_mod c' = c_mod c /\ s' = s) \/
+   ((m <> c_mod c \/ c_avail c = O) /\ grandomm m s = Ret (v, s') /\ c' = c)).
+Proof. exact cache_get_spec. Qed.
+Print Assumptions C07_cache_get.
+
+Theorem C07_cache_run_range : forall n q ms s vs s', cache_run n q ms s = Ret (vs, s') -> Forall2 in_range_m ms vs.
+Proof. exact cache_run_range. Qed.
+Print Assumptions C07_cache_run_range.
+
 (* ---- non-vacuity / sanity on concrete values ---- *)
 Example C07_max_3 : nomodbias_max 3 = 18446744073709551614.
 Proof. vm_compute. reflexivity. Qed.
@@ -163,4 +187,8 @@ Proof. vm_compute. reflexivity. Qed.
 Example C07_all_coins_3 : all_coins 2 0 3 = [[0;0];[0;1];[1;0];[1;1];[2;0];[2;1]].
 Proof. vm_compute. reflexivity. Qed.
 Example C07_randomm_example : grandomm 11 [0;0;0;0;0;0;0;1;7] = Ret (10%Z, []).
+Proof. vm_compute. reflexivity. Qed.
+Example C07_cache_example :
+  cache_run 2 11 [11; 5; 11; 11]%Z (repeat 0 8 ++ [7] ++ repeat 0 8 ++ [9] ++ repeat 0 8 ++ [9] ++ repeat 0 8 ++ [10])
+  = Ret ([9; 4; 7; 10]%Z, []).
 Proof. vm_compute. reflexivity. Qed.
